@@ -56,7 +56,7 @@ CLAIMED.update({
     },
     "C13": {
         "technique": "TLA+ plant family: each documented Compile rule broken at every expression slot and depth next to its rule-abiding twin; TLC enumerates, harness compiles for real; either/or contract on every input of every family",
-        "text": "TLC enumerates 11 built-ins x arities 0..4 x 13 expression slots x 7 nesting depths, $left/$right in and outside join conditions, let values of every forbidden and allowed shape, zero/one/two queries, join kinds, row-count literals; the specification states for each whether Compile must fail; the real Compile must agree, and on every input of every family (incl. corruptions and soups) returns exactly one of SQL and error.",
+        "text": "TLC enumerates 11 built-ins x arities 0..4 x 13 expression slots x 7 nesting depths x (bare and deep) 17 pipeline contexts (the operator alone, after / before count, take, sort, top, project, summarize, join, as, where), $left/$right in and outside join conditions, let values of every forbidden and allowed shape, zero/one/two queries, join kinds, row-count literals; the specification states for each whether Compile must fail; the real Compile must agree, and on every input of every family (incl. corruptions and soups) returns exactly one of SQL and error.",
         "note": "Render property values are outside the planted positions (the documentation does not say they are compiled).",
         "ref": "DESIGN.md 3.7, 4 (C13)",
     },
@@ -115,9 +115,9 @@ CLAIMED.update({
         "ref": "DESIGN.md 3.8, 4 (C14), 5",
     },
     "C16": {
-        "technique": "TLA+ model of the command-line loop (Cli) checked against the script-level reference for every script x layout, with a negative control; every terminal state concretised and run through the cmd/pql binary built from the working tree",
-        "text": "TLC enumerates every script of up to 3/4 statements over five statement kinds in every line layout and checks that the line-loop model prints exactly what the script demands (the pinned loop without the let prelude at end of input is a failing negative control). Each terminal state is concretised with lets whose values the queries use, semicolons inside strings and comments and several kinds of invalid statements, and fed to the real binary via stdin, one file, four files cut at arbitrary bytes, or with -o; stdout must be the library's SQL for each query with the accepted lets in scope followed by a blank line, exit status and stderr line count as the model says; plus an over-long line and an unreadable file.",
-        "note": "Empty statements between semicolons and an unterminated final let may or may not count as failures (left open by the property).",
+        "technique": "TLA+ model of the command-line loop (Cli) checked against the script-level reference for every script x layout, with a negative control; every terminal state concretised and run through the cmd/pql binary built from the working tree; TLA+ model of the input plumbing (CliInput: channels, cut points, unreadable and missing arguments) with the runs of the real binary judged by TLC (TraceCli)",
+        "text": "TLC enumerates every script of up to 3/4 statements over five statement kinds in every line layout and checks that the line-loop model prints exactly what the script demands (the pinned loop without the let prelude at end of input is a failing negative control). Each terminal state is concretised with lets whose values the queries use, semicolons inside strings and comments and several kinds of invalid statements, and fed to the real binary via stdin, one file, four files cut at arbitrary bytes, or with -o; stdout must be the library's SQL for each query with the accepted lets in scope followed by a blank line, exit status and stderr line count as the model says; plus an over-long line and an unreadable file. CliInput.tla: stdin / one file / three files cut at every pair of symbol boundaries / '-' among files / -o, with a directory (opens, cannot be read) or a missing path at every argument position; TLC checks the model of makeInput, reader, line scanner and loop against the judge and that the judge is not vacuous; the binary is run on real files and directories, each block of its standard output is identified as (statement, lets in scope), and TLC judges every observation (exit status non-zero and stderr non-empty when input could not be read, nothing printed that the readable text does not demand).",
+        "note": "Empty statements between semicolons and an unterminated final let may or may not count as failures; how many of the completely read statements are printed before an unreadable argument is left open (left open by the property).",
         "ref": "DESIGN.md 3.9, 4 (C16)",
     },
 })
